@@ -122,6 +122,8 @@ def corpus():
     out.append(Case("lambda ev: [j.pt for j in ev.jets] + [j]", [Var("j", "l1", "j = 5")], 1, {"F08"}, group="corpus"))
     out.append(Case("lambda e: [x for x in e.jets.Select(lambda j: j.pt)]", [Var("x", "l1", "x = 3")], 1, {"F08"}, group="corpus"))
     out.append(Case("lambda e: {x: e.a for x in e.jets.Select(lambda j: j.pt)}", [Var("x", "g", "x = 3")], 1, {"F08"}, group="corpus"))
+    # F42: the walrus target is a local of the lambda although a global of that name exists
+    out.append(Case("lambda e: (y := e.x) + y", [Var("y", "g", "y = 3", after="y = 'REBOUND'")], 1, {"F42", "assignment-expression"}, group="corpus"))
     # a left-over loop index `j` as module global, two `for` clauses (the second iterable uses the first target)
     out.append(Case("lambda e: [t * scale for j in e.jets for t in j.sub if t > cut]",
                     [Var("j", "g", "for j in range(2):\n    pass", after="j = 77"), Var("cut", "g", "cut = 1", after="cut = 500"),
@@ -359,8 +361,34 @@ DEFAULT_USES = [
 ]
 
 
+# F42: a name bound by an assignment expression is local to the lambda it occurs in - never a capture - although a global /
+# closure variable of that name exists (x = 5, y = 9); the same name outside that lambda is the captured variable
+WALRUS = [
+    "lambda e: (x := e.a) + x",
+    "lambda e: (x := e.a) + x + y",
+    "lambda e: (y := x + e.a) * y",
+    "lambda e: [y := e.a, y + x][1]",
+    "lambda e: [(x := j.pt) + x for j in e.jets]",
+    "lambda e: [(x := j.pt) + x for j in e.jets] + [x]",
+    "lambda e: sum((x := s) * x for j in e.jets for s in j.sub)",
+    "lambda e: e.jets.Select(lambda j: (x := j.pt) + x).Count() + x",
+    "lambda e: sum(e.jets.Select(lambda j: (y := j.pt) * y)) + y",
+    "lambda e: (lambda q: (x := q) + x)(e.a) + x",
+    "lambda e: (lambda q: (x := q) + x)(e.a) + (lambda q: q + x)(e.b)",
+    "lambda e: (lambda q, r=(x := e.a): q + r + x)(1)",
+    "lambda e: (lambda q, *, r=(x := e.a + y): q + r)(1) + x",
+    "lambda e: e.a if (x := e.b) > 0 else x",
+    "lambda e: x + (x := e.a)",
+    "lambda x: (y := x.a) + y",
+]
+
+
 def nonplain_cases():
     out = []
+    for d, sc in ((1, "g"), (1, "l1"), (2, "l1"), (3, "l2")):
+        for s in WALRUS:
+            out.append(Case(s, [Var("x", sc, "x = 5", after="del x"), Var("y", sc, "y = 9", after="y = 'REBOUND'")], d,
+                            {"F42", "assignment-expression"}, group="nonplain"))
     for d, sc in ((1, "g"), (1, "l1"), (2, "l1")):
         for s in NONPLAIN:
             out.append(Case(s, [Var("x", sc, "x = 5", after="del x"), Var("y", sc, "y = 9")], d, {"FC7", "non-plain"}, group="nonplain"))
